@@ -205,7 +205,7 @@ pub fn space_size(sp: Space) -> usize {
             let t = TOKB.len();
             (1..=l).map(|k| t.pow(k as u32) * 2).sum()
         }
-        Space::Grid => GRID.len().pow(4) * 3,
+        Space::Grid => GRID.len().pow(4) * 4,
         Space::Edits => SKELETONS.iter().map(|sk| { let e = edits_per_skeleton(sk); 1 + e + e * e }).sum(),
     }
 }
@@ -259,8 +259,8 @@ pub fn input_of(sp: Space, mut idx: usize) -> Vec<u8> {
         }
         Space::Grid => {
             let g = GRID.len();
-            let body = idx % 3;
-            let mut d = idx / 3;
+            let body = idx % 4;
+            let mut d = idx / 4;
             let mut f = vec![];
             for _ in 0..4 {
                 f.push(GRID[d % g]);
@@ -270,6 +270,8 @@ pub fn input_of(sp: Space, mut idx: usize) -> Vec<u8> {
             match body {
                 0 => out.extend_from_slice(b" a\n-b\n+c\n"),
                 1 => out.extend_from_slice(b" a\n"),
+                // a second, ordinary hunk: its expected place is its stated line plus whatever offset the first one went in at
+                2 => out.extend_from_slice(b" a\n-b\n+c\n@@ -3 +3 @@\n-c\n+C\n"),
                 _ => {}
             }
             out
